@@ -713,6 +713,10 @@ func isNumeric(sys System, s string) (int64, bool) {
 			return 0, false
 		}
 	}
+	// An identifier with a hyphen ("-5") is alphanumeric, not a negative number.
+	if len(s) > 0 && (s[0] == '-' || s[0] == '+') {
+		return 0, false
+	}
 	var (
 		n   int64
 		err error
